@@ -12,6 +12,7 @@ import (
 	"math/rand"
 	"os"
 	"reflect"
+	"runtime/debug"
 	"runtime/metrics"
 	"strconv"
 	"strings"
@@ -434,6 +435,11 @@ func totalCase(rep *Report, s *glue.Subject, d MD, idx int, S uint64) {
 	}
 	if a1-a0 > bound {
 		rep.Violate("C06", "total/allocation/"+class, tn, fmt.Sprintf("Unmarshal of %d bytes allocated %d bytes (bound %d)", len(in), a1-a0, bound), rc)
+		// give the memory back at once: many such cases in a row would otherwise push the process over its memory
+		// guard before the report is written
+		m = nil
+		debug.FreeOSMemory()
+		return
 	}
 	if err != nil {
 		rep.Count("C06", "rejected", 1)
